@@ -5,6 +5,8 @@ import copy
 import json
 import math
 
+from translator import c03 as tr
+
 from .. import core
 from ..core import Broken, Ctx, Violation
 
@@ -22,6 +24,9 @@ CLAUSES = {1: "run_raised", 2: "slices_differ_from_snapshots", 3: "node_paths", 
            5: "debug_changes_result", 6: "debug_nodes"}
 
 TRUSTED = [
+    "translator/c03.py (python ast -> Gen_C03.src_tables / src_shape: exported and captured containers, time label, which "
+    "to_xarray copies, dims / coordinate origins / dtype conversion, concatenation and dtype restoration in run_pipeline, keys "
+    "of the final tree, debug reference; fails closed on any other shape)",
     "correspondence harness: harness/props/c03.py generators and literal emitters, harness/drivers/c03.py "
     "(canonical form of the returned DataTree), probes/verif_probes_c03.py (writer models, the last-running recorder)",
     "modelled, not verified: xarray concat/expand_dims/DataTree (concatenation along time appends the slice of the step and "
@@ -268,6 +273,11 @@ def fixed_cases() -> list:
     cs.append(dict(rows=1, cols=1, start=0, times=[8, 16], nondestr=False, hier=False, debug=True,
                    models=[dict(group="charge_measurement", name="z0", actions=[w("signal", "float64", [0, 0])]),
                            dict(group="readout_electronics", name="wi", actions=[w("image", "uint16", [0, 4])]), L()]))
+    # a model that sets the charge back to zero: an all-zero charge is left out of a capture
+    cs.append(dict(rows=1, cols=1, start=0, times=[8, 16], nondestr=False, hier=False, debug=True,
+                   models=[dict(group="charge_generation", name="c1", actions=[w("charge", "float64", [5, 6], mode="iadd")]),
+                           dict(group="charge_collection", name="c0", actions=[w("charge", "float64", [0, 0], mode="assign")]),
+                           dict(group="charge_collection", name="wx", actions=[w("pixel", "float64", [3, 9])]), L()]))
     # ... and the first model of a later step rewrites a bucket with the values of the previous step (it used to
     # be compared with the end of the previous step: not recorded)
     for nd in (False, True):
@@ -383,9 +393,9 @@ def emit_case(c, o) -> str:
 def emit_file(pairs) -> str:
     body = ";\n  ".join(emit_case(c, o) for c, o in pairs)
     return ("From Coq Require Import ZArith List String.\nFrom PyxelV Require Import Model.Result.\n"
-            "Import ListNotations.\nOpen Scope Z_scope.\n"
+            "From PyxelGen Require Import Gen_C03.\nImport ListNotations.\nOpen Scope Z_scope.\n"
             f"Definition cases : list case := [\n  {body}\n].\n"
-            "Eval vm_compute in mismatches cases.\nEval vm_compute in violations cases.\n")
+            "Eval vm_compute in mismatches src_tables cases.\nEval vm_compute in violations cases.\n")
 
 
 # ------------------------------------------------------------------------------------------ evaluation
@@ -573,6 +583,17 @@ def to_violation(ctx: Ctx, c, o, clause: int, do_shrink=True) -> Violation:
                           f"nondestr={c['nondestr']} models={[m['name'] for m in c['models']]}", sig=sig)
 
 
+def generated(ctx: Ctx) -> dict:
+    """Gen_C03.v from the tree under test; the last accepted shape if the translation fails (broken obligation)."""
+    try:
+        return {"Gen_C03.v": tr.translate(ctx.repo)}
+    except core.TranslationError as ex:
+        ctx.broken.append(Broken("translation", "declarative part of the result assembly (exposure.py, to_xarray of the "
+                                 "containers, Detector.to_xarray, ModelGroup.run)", str(ex)))
+        ctx.log("translation failed:", ex)
+        return {"Gen_C03.v": tr.FALLBACK}
+
+
 def nontrivial(c) -> bool:
     return len(c["times"]) >= 2 and any(a.get("kind") == "write" for m in c["models"] for a in m["actions"])
 
@@ -587,7 +608,7 @@ def run(ctx: Ctx):
         "buckets initialised in some steps only are outside the statement (xarray NaN-fills them): recorded, not judged",
         "debug: values small enough that np.allclose on integers is equality (|v| < 1e5)",
     ]
-    core.proof_leg(ctx, {}, PROP_FILE)
+    core.proof_leg(ctx, generated(ctx), PROP_FILE)
 
     r = ctx.rng("cases")
     cases = fixed_cases()
@@ -702,7 +723,12 @@ def replay(ctx: Ctx, rp: dict) -> int:
         print(rp.get("detail", ""))
         return 1
     core.ensure_lib(ctx, targets=core.lib_targets_of([(core.THEORIES / PROP_FILE).read_text()]))
-    (ctx.build / "gen").mkdir(parents=True, exist_ok=True)
+    gen = ctx.build / "gen"
+    gen.mkdir(parents=True, exist_ok=True)
+    nb = len(ctx.broken)
+    (gen / "Gen_C03.v").write_text(generated(ctx)["Gen_C03.v"])
+    del ctx.broken[nb:]
+    core.coqc(ctx, gen / "Gen_C03.v", [(gen, "PyxelGen")])
     pairs, mism, viol = evaluate(ctx, [case], tag="replay")
     if not pairs:
         print("the driver failed on the replayed case")
